@@ -64,7 +64,7 @@ m = {
     ],
     'checks': checks,
     'not_applicable': na,
-    'notes': 'All checks are static: the only process run on the analysed code is cargo +nightly check (type checking, with the fact-extracting rustc wrapper); nothing of inejge/ldap3 is executed. Quick = the default feature configuration, plus the configurations a module names in QUICK_CONFIGS because code it is anchored in exists only there (rustls for C17, gssapi for C06 and C11); thorough = all four configurations that build offline, the compile_fail witnesses, and sensitivity runs against the known property-breaking variants. See DESIGN.md (sections 11 to 16 describe the checks as built and how they were evaluated against seeded defects and behaviour-preserving refactors).',
+    'notes': 'All checks are static: the only process run on the analysed code is cargo +nightly check (type checking, with the fact-extracting rustc wrapper); nothing of inejge/ldap3 is executed. Quick = the default feature configuration, plus the configurations a module names in QUICK_CONFIGS because code it is anchored in exists only there (rustls for C17, gssapi for C06 and C11); thorough = all four configurations that build offline, the compile_fail witnesses, and sensitivity runs against the known property-breaking variants. See DESIGN.md (sections 11 to 19 describe the checks as built and how they were evaluated against seeded defects and behaviour-preserving refactors).',
 }
 fix_file = os.path.join(VERIF, 'tools', 'fix_commits.json')
 if os.path.exists(fix_file):
